@@ -159,6 +159,30 @@ def cmd_validate(path):
     return 3 if bad else 0
 
 
+def _portable_symbols(text):
+    """Rename symbols the older parsers do not take (non-ASCII letters,
+    quote characters in role or policy names used as variable names) to
+    plain aliases; quoted |...| symbols and bare ones alike."""
+    import re
+    alias = {}
+
+    def name(sym):
+        if sym not in alias:
+            alias[sym] = 'sym_%d' % len(alias)
+        return alias[sym]
+    text = '\n'.join(ln for ln in text.split('\n')
+                     if not ln.lstrip().startswith(';'))
+    # quoted symbols first
+    text = re.sub(r'\|([^|]*)\|', lambda m: name(m.group(1)), text)
+    # bare tokens holding characters outside the portable set
+    def fix(m):
+        tok = m.group(0)
+        if re.fullmatch(r'[A-Za-z0-9_.#@!$%^&*+=<>/?~:-]+', tok):
+            return tok
+        return name(tok)
+    return re.sub(r'[^\s()]+', fix, text)
+
+
 def _second_opinion(prop, exports):
     """Re-discharge exported obligations (pc & not claim, expected unsat)
     with the z3 4.8.12 and cvc5 binaries."""
@@ -175,7 +199,7 @@ def _second_opinion(prop, exports):
     for i, text in enumerate(exports):
         fn = os.path.join(d, 'o%04d.smt2' % i)
         with open(fn, 'w') as f:
-            f.write('(set-logic ALL)\n' + text)
+            f.write('(set-logic ALL)\n' + _portable_symbols(text))
         files.append(fn)
     res = {'exported': len(files), 'solvers': {}, 'disagree': [],
            'unconfirmed': []}
